@@ -32,6 +32,18 @@ CHECKS = {
         text="For every history of <=4 (thorough: 5) steps of execute/begin/begin_nested/commit/rollback/savepoint commit/rollback, every position (cursor() or statement) of one DBAPI error, kind (disconnect / looks-like-disconnect / ordinary) and handle_error listener (none, passive, flips is_disconnect, clears invalidate_pool_on_disconnect): DBAPIError.connection_invalidated and Connection.invalidated are right, the DBAPI connection is closed, no DBAPI connection opened before the disconnect is ever handed out again, every further use raises InvalidRequestError/PendingRollbackError without reconnecting until rollback(), then the Connection works on a new DBAPI connection; ordinary errors leave connection and pool contents identical. Bounded claim.",
         note="Trusted: fake DBAPI extension in props/C27.py (savepoints as statements, 'softdisc' fault), pool clock stubbed to a strictly increasing counter (the code's own stated assumption), model in props/C27.py. One fault per history; pool reset faults belong to C26.",
         ref="DESIGN.md §4 C27"),
+    "C38": dict(engine=E1, category="other", technique='differential execution of the real instrumented collections against builtin list/set/dict plus an append/remove event ledger; inputs are solver-chosen indices into bounded input tables (one z3-decided path per input, CrossHair driver), exhausted per slice, concrete replay',
+        text="For every list/set/keyed-dict mutator and every argument tuple within the bounds (sizes<=3/4, indices and slice start/stop/step incl. None in -6..6, RHS kinds incl. iterators and the collection itself) the instrumented collection has the same contents, return value and exception type as the builtin, and the fired append/remove events equal the signed multiset difference of the contents. Bounded claim; exhaustion in evidence.",
+        note="Trusted: builtin list/set/dict as reference; CrossHair/z3 only select the inputs (the code under test runs on concrete values because list/set/dict internals are C and realise any symbolic argument), reporting cap of 2 per defect key and slice. `*=` k>=1 events excluded (deliberate per source comment).",
+        ref="DESIGN.md §4 C38"),
+    "C49": dict(engine=E1, category="other", technique='differential execution of the real instrumented collections against builtin list/set/dict plus an append/remove event ledger; inputs are solver-chosen indices into bounded input tables (one z3-decided path per input, CrossHair driver), exhausted per slice, concrete replay',
+        text="MutableList/Dict/Set via as_mutable(PickleType): for every mutator (overridden or inherited) with bounded arguments from every bounded initial content, and for 2-3-step histories interleaving mutators with replacement, None and a pickle round trip, contents equal the builtin and contents-changed implies the parent attribute is flagged modified. Bounded, in-memory.",
+        note="Trusted: InstanceState.modified/committed_state/history as the observation of 'flagged'; transient parent, no flush. Code under test runs on concrete values chosen by the solver.",
+        ref="DESIGN.md §4 C49"),
+    "C50": dict(engine=E1, category="other", technique='differential execution of the real instrumented collections against builtin list/set/dict plus an append/remove event ledger; inputs are solver-chosen indices into bounded input tables (one z3-decided path per input, CrossHair driver), exhausted per slice, concrete replay',
+        text="OrderingList (count_from 0/1/7, reorder_on_append on/off): after every list operation from every valid state of size<=3/4 and after every step of 2-3-op histories, contents equal a plain list and pos == count_from+index; association-proxy list/set/dict equal the builtin of proxied values (contents, return, exception type) with intermediaries created one-for-one. Bounded.",
+        note="Trusted: as C38. Documented deviations excluded (see META.outside in props/C50.py). In-memory half only.",
+        ref="DESIGN.md §4 C50"),
     "C54": dict(
         engine=E1, category="other",
         technique="symbolic execution of the real pure-Python collection classes (CrossHair proxies + z3), path-exhaustive within bounds, concrete replay",
